@@ -15,4 +15,13 @@ theorem c19_negation_D19 :
     cleanA d19 0 = "<rm name='a'>\nx\nbody\n</rm>\nmore\nend\n".toList ∧
     cleanA (cleanA d19 0) 0 = "more\nend\n".toList := by decide +kernel
 
+/-- the second form: no tag on a wrapper line, but an unclosed ready opening tag inside the body of the unwrapped block and
+    a stray closing tag behind it - the block's closing tag used to cut the opening tag off -/
+def d19b : List Char :=
+  "<tl to='2000-01-01 00:00:00' unwrap-block>\n{\n<rm name='a'>\nbody\n}\n</tl>\nx\n</rm>\nend\n".toList
+
+theorem c19_negation_D19b :
+    cleanA d19b 1577836800 = "<rm name='a'>\nbody\nx\n</rm>\nend\n".toList ∧
+    cleanA (cleanA d19b 1577836800) 1577836800 = "end\n".toList := by decide +kernel
+
 end Chiritori.Props.C19
